@@ -247,7 +247,11 @@ def run(ctx):
 
     # ---- 2. the table of exercised requests, printed by the model
     rt = T.run_tlc("MC_C13", "MC_cases.cfg", ctx.spec_dir, workers=1, scratch=ctx.scratch, timeout=600)
-    cases = [c for c in T.parse_printed_json(rt.output) if isinstance(c, dict) and c.get("ph") == "case"]
+    printed = T.parse_printed_json(rt.output)
+    cases = [c for c in printed if isinstance(c, dict) and c.get("ph") == "case"]
+    states = [c for c in printed if isinstance(c, dict) and c.get("ph") == "state" and len(c["dims"]) == 2]
+    if len(states) < 200:
+        raise MachineryError("the model printed only %d states" % len(states))
     if len(cases) < 1000:
         raise MachineryError("the model printed only %d requests" % len(cases))
     cases.sort(key=lambda c: (c["cls"], c["thin"], c["n"], c["asc"], c["bare"], c["route"], c["nrm"]))
@@ -298,6 +302,25 @@ def run(ctx):
                 rec.ask(c["route"], where, bare, c["nrm"], rng, op=(kind, G, fs))
                 nasked += 1
 
+    # ---- 3b. S->C: the small states TLC enumerated, realised as real two-site networks
+    states.sort(key=lambda c: (c["dims"], c["psi"]))
+    chosen = states if not quick else rng.sample(states, 40)
+    ctx.extra["states_from_tlc"] = {"printed": len(states), "replayed": len(chosen)}
+    for k, stt in enumerate(chosen):
+        cls = ("mps", "tree")[k % 2]
+        geo = U.geo_from_state(cls, stt["dims"], stt["psi"])
+        if geo.den != stt["den"]:
+            raise MachineryError("realised network does not denote the TLC state %s" % stt)
+        rec = Recorder(geo, len(recorders), stats)
+        recorders.append(rec)
+        for where in rng.sample([(0,), (1,), (0, 1), (1, 0)], 2):
+            # (the experimental reduce=True path raises ValueError when the kept sites are the whole network)
+            avail = [c for c in table[(cls, False, len(where), bool(U.is_asc(geo, where)), False)]
+                     if c["avail"] and not (c["route"] == "partial_trace_compressed_reduce" and len(where) == 2)]
+            for c in rng.sample(avail, min(len(avail), 8)):
+                rec.ask(c["route"], where, False, c["nrm"], rng)
+                nasked += 1
+
     # ---- 4. C->S: random networks, every kind of ordered tuple, every available route, random options
     sweep_geos = 2 if quick else 8
     per_shape = 1 if quick else 3
@@ -333,8 +356,12 @@ def run(ctx):
     for r in recorders:
         if len(r.recs) > 1:
             recs += r.recs
+    import hashlib
+    import json
     for r in recs:
         r.pop("raw", None)
+    ctx.extra["trace_digest"] = hashlib.sha1(json.dumps([{k: v for k, v in r.items() if k not in ("excmsg", "opts")} for r in recs],
+                                                         sort_keys=True).encode()).hexdigest()
     fails = ctx.validate("C13_Trace", "Trace.cfg", recs, name="routes", ntraces=sum(1 for r in recorders if len(r.recs) > 1), chunk=3000)
 
     # ---- evidence
